@@ -185,7 +185,7 @@ class Check:
         out = p.stdout
         res = {}
         # outputs: "'X' depends on axioms: [a, b]" or "'X' does not depend on any axioms"
-        for m in re.finditer(r"'([^']+)' (does not depend on any axioms|depends on axioms: \[([^\]]*)\])",
+        for m in re.finditer(r"'(\S+)' (does not depend on any axioms|depends on axioms: \[([^\]]*)\])",
                              out.replace("\n", " ")):
             ax = [a.strip() for a in (m.group(3) or "").split(",") if a.strip()]
             res[m.group(1)] = ax
@@ -304,7 +304,7 @@ class Check:
         return None
 
     def compare_cases(self, harness_cmd, driver_cmd, cases, label="", timeout=900,
-                      nontrivial=None, shrink=True, max_failures=4):
+                      nontrivial=None, shrink=True, max_failures=4, monitor=None):
         """cases: list of lists of op lines (each case starts from a fresh state; harness
         and driver both reset on the line '#case').  Runs all of them through both sides,
         and for each failing case (up to max_failures): shrinks, classifies, records.
@@ -325,6 +325,30 @@ class Check:
                     idx.append(ci)
             self.cov["op_lines"] = self.cov.get("op_lines", 0) + len(lines)
             c_lines, m_lines, cerr = self.both(harness_cmd, driver_cmd, "\n".join(lines) + "\n", timeout)
+            if monitor is not None:
+                # property monitor on the implementation's own output (independent of the
+                # model): yields (line index, message) for lines that violate the property
+                seen_cases = set()
+                for li, msg, cls in monitor(lines, c_lines):
+                    ci = idx[min(li, len(idx) - 1)]
+                    if (ci, cls) in seen_cases or len(seen_cases) >= max_failures:
+                        continue
+                    seen_cases.add((ci, cls))
+                    case = list(cases[ci])
+
+                    def still(cand, cls=cls):
+                        ls = ["#case"] + list(cand)
+                        rc, cout, cerr = self.run(harness_cmd, input_text="\n".join(ls) + "\n", timeout=60)
+                        co = cout.split("\n")
+                        return any(c == cls for _, _, c in monitor(ls, co))
+                    if shrink:
+                        case = ddmin(case, still)
+                    ls = ["#case"] + case
+                    rc, cout, cerr = self.run(harness_cmd, input_text="\n".join(ls) + "\n", timeout=60)
+                    msgs = [m for _, m, c in monitor(ls, cout.split("\n")) if c == cls]
+                    self.report("obs", {"label": label + ":monitor", "ops": case, "class": cls,
+                                        "monitor": msgs[0] if msgs else msg,
+                                        "impl": cout.split("\n")[-8:]})
             d = self.first_diff(c_lines, m_lines)
             if d is None:
                 break
@@ -537,6 +561,8 @@ def match_known(known, pid, replay):
     for k in known.get("known", []):
         if k["property"] != pid:
             continue
+        if "class" in k and replay.get("class") != k["class"]:
+            continue
         if all(s in txt for s in k.get("match_all", [])) and \
                 not any(s in txt for s in k.get("match_none", [])):
             if "max_ops" in k and len(replay.get("ops", [])) > k["max_ops"]:
@@ -609,6 +635,33 @@ def git_committed(path_rel_to_verif):
     p = subprocess.run(["git", "-C", VERIF, "show", "HEAD:" + path_rel_to_verif],
                        stdout=subprocess.PIPE, stderr=subprocess.DEVNULL)
     return p.stdout.decode() if p.returncode == 0 else None
+
+
+def ddmin(items, pred, budget=400):
+    """delta debugging: smallest sub-sequence of `items` (found within budget) with pred true"""
+    cur = list(items)
+    n = 2
+    runs = 0
+    while len(cur) >= 2 and runs < budget:
+        chunk = max(1, len(cur) // n)
+        reduced = False
+        for st in range(0, len(cur), chunk):
+            cand = cur[:st] + cur[st + chunk:]
+            if not cand:
+                continue
+            runs += 1
+            if pred(cand):
+                cur = cand
+                n = max(n - 1, 2)
+                reduced = True
+                break
+            if runs >= budget:
+                break
+        if not reduced:
+            if chunk == 1:
+                break
+            n = min(len(cur), n * 2)
+    return cur
 
 
 def generic_replay(ck, path, harness_cmd, driver_cmd):
